@@ -741,7 +741,10 @@ def one_construction(ctx, repo, pid):
             # both branches must end in the same construction: flag when one branch delegates / returns and the other builds its own triplets
             def kind(block):
                 txt = " ".join(src(b) for b in block)
-                deleg = any(isinstance(x, ast.Return) and isinstance(x.value, ast.Call) and "_calculate_N_N_array" in src(x.value.func) for b in block for x in ast.walk(b))
+                # an early `return other_construction(...)` under a test of the property: the other properties fall through to the pair loop
+                deleg = any(isinstance(x, ast.Return) and isinstance(x.value, ast.Call) and isinstance(x.value.func, ast.Attribute) and
+                            isinstance(x.value.func.value, (ast.Name, ast.Attribute, ast.Call)) and
+                            src(x.value.func).split(".")[0] in ("self", "super()") for b in block for x in ast.walk(b))
                 return "delegates" if deleg else ("builds" if ("coo_array" in txt or "rows" in txt) else "other")
             rest = fi.node.body[fi.node.body.index(st) + 1:]
             k_body, k_else = kind(st.body), kind(st.orelse if st.orelse else rest)
